@@ -887,3 +887,130 @@ Proof.
     { apply H0. destruct Hnz as [i [Hi He]]. exists i. split; [exact Hi|]. change (vf el i <> 0). rewrite Hev by exact Hi. exact He. }
     lra.
 Qed.
+
+(* ====================================================================== H. the wrappers *)
+Theorem positive_negative_sound n A b ranges chk :
+  wf n A b ->
+  match @reconstruction_positive_negative ROps A b ranges chk with
+  | Ok s => length s = n /\ forall i, (i < n)%nat -> dotR (rowR A i) s = nth i b 0
+  | Raise e => e = InversionException
+  end.
+Proof.
+  intros Hwf. unfold reconstruction_positive_negative.
+  destruct (solve _ _) as [s|] eqn:Es; [|reflexivity].
+  destruct (_ && _); [reflexivity|]. exact (solve_sound n A b s Hwf Es).
+Qed.
+
+Lemma positive_only_x_fnnls n A b (eps : R) up fuel (d : list R) ek : wf n A b ->
+  @reconstruction_positive_only_x ROps fuel A b eps up = Ok (d, ek) ->
+  exists pinit Pf, (forall P0, pinit = Some P0 -> length P0 = n) /\ @fnnls ROps fuel A b eps pinit = Ok (d, ek, Pf).
+Proof.
+  intros Hwf H. unfold reconstruction_positive_only_x in H. destruct b as [|b0 b']; [discriminate|].
+  set (b := b0 :: b') in *. destruct up.
+  - destruct (solve _ _) as [u|] eqn:Es; [|discriminate].
+    destruct (fnnls _ _ _ _ _) as [[[d' ek'] Pf]|e] eqn:Ef; [|discriminate]. inversion H; subst d' ek'.
+    eexists. exists Pf. split; [|exact Ef]. intros P0 HP0. inversion HP0; subst P0.
+    rewrite map_length. exact (proj1 (solve_sound n A b u Hwf Es)).
+  - destruct (fnnls _ _ _ _ _) as [[[d' ek'] Pf]|e] eqn:Ef; [|discriminate]. inversion H; subst d' ek'.
+    exists None, Pf. split; [intros P0 HP0; discriminate|exact Ef].
+Qed.
+
+Theorem positive_only_kkt n A b (eps : R) up fuel (d : list R) : wf n A b -> 0 <= eps ->
+  @reconstruction_positive_only_x ROps fuel A b eps up = Ok (d, ExitCond) -> KKT A b d (@tolerance ROps eps n).
+Proof.
+  intros Hwf He H. destruct (positive_only_x_fnnls n A b eps up fuel d ExitCond Hwf H) as [pinit [Pf [Hp Hf]]].
+  exact (fnnls_kkt_on_normal_exit n A b eps pinit fuel d Pf Hwf He Hp Hf).
+Qed.
+Theorem positive_only_stationary n A b (eps : R) up fuel (d : list R) : wf n A b -> 0 <= eps ->
+  @reconstruction_positive_only ROps fuel A b eps up = Ok d -> Stationary A b d.
+Proof.
+  intros Hwf He H. unfold reconstruction_positive_only in H.
+  destruct (reconstruction_positive_only_x _ _ _ _ _) as [[d' ek]|e] eqn:Ex; [|discriminate]. inversion H; subst d'.
+  destruct (positive_only_x_fnnls n A b eps up fuel d ek Hwf Ex) as [pinit [Pf [Hp Hf]]].
+  exact (fnnls_stationary_any_exit n A b eps pinit fuel d ek Pf Hwf He Hp Hf).
+Qed.
+Theorem positive_only_raises_inversion_exception A b (eps : R) up fuel e :
+  @reconstruction_positive_only ROps fuel A b eps up = Raise e -> e = InversionException.
+Proof.
+  unfold reconstruction_positive_only, reconstruction_positive_only_x. destruct b; [intros H; inversion H; reflexivity|].
+  destruct up.
+  - destruct (solve _ _); [|intros H; inversion H; reflexivity].
+    destruct (fnnls _ _ _ _ _) as [[[? ?] ?]|?]; intros H; inversion H; reflexivity.
+  - destruct (fnnls _ _ _ _ _) as [[[? ?] ?]|?]; intros H; inversion H; reflexivity.
+Qed.
+
+(* ---- forced zeros: the reduced system ---- *)
+Lemma wf_submat n A b idx : wf n A b -> wf (length idx) (@submat ROps A idx) (@gather ROps b idx).
+Proof.
+  intros _. unfold wf, submat, gather. rewrite !map_length. repeat split.
+  intros r Hr. apply in_map_iff in Hr. destruct Hr as [i [<- _]]. apply map_length.
+Qed.
+Lemma submat_row (A : list (list R)) idx k : (k < length idx)%nat ->
+  rowR (@submat ROps A idx) k = @gather ROps (rowR A (nth k idx 0%nat)) idx.
+Proof.
+  intros Hk. unfold row at 1, submat.
+  rewrite (nth_indep _ [] ((fun i => @gather ROps (rowR A i) idx) 0%nat)) by (rewrite map_length; exact Hk).
+  exact (map_nth (fun i => @gather ROps (rowR A i) idx) idx 0%nat k).
+Qed.
+Lemma gather_nth (b : list R) idx k : (k < length idx)%nat -> nth k (@gather ROps b idx) 0 = nth (nth k idx 0%nat) b 0.
+Proof.
+  intros Hk. unfold gather. rewrite (nth_indep _ 0 (@nthT ROps b 0%nat)) by (rewrite map_length; exact Hk).
+  exact (map_nth (@nthT ROps b) idx 0%nat k).
+Qed.
+
+Definition ids_zeros_of (set : settings) (objs : list (@lobj ROps)) : list nat :=
+  if force_edge_image_pixels_to_zeros set
+  then @mapper_edge_pixel_list ROps objs ++ @mapper_zero_pixel_list ROps objs (image_pixels_source_zero set)
+  else @mapper_edge_pixel_list ROps objs.
+Definition kept_of (n : nat) (ids : list nat) : list nat :=
+  idx_of (map (fun i => negb (existsb (Nat.eqb i) ids)) (seq 0 n)).
+
+Lemma kept_of_In n ids i : In i (kept_of n ids) <-> ((i < n)%nat /\ ~ In i ids).
+Proof.
+  unfold kept_of. rewrite idx_of_In, map_length, seq_length. split.
+  - intros [Hi H]. split; [exact Hi|]. intros Hin.
+    rewrite nth_map_seq in H by exact Hi. apply negb_true_iff in H.
+    assert (existsb (Nat.eqb i) ids = true); [|congruence].
+    apply existsb_exists. exists i. split; [exact Hin|apply Nat.eqb_refl].
+  - intros [Hi H]. split; [exact Hi|].
+    rewrite nth_map_seq by exact Hi. apply negb_true_iff.
+    destruct (existsb (Nat.eqb i) ids) eqn:E; [|reflexivity]. exfalso. apply H.
+    apply existsb_exists in E. destruct E as [j [Hj E]]. apply Nat.eqb_eq in E. subst j. exact Hj.
+Qed.
+
+Theorem forced_zero_reduced_system n A b (eps : R) fuel set objs (s : list R) :
+  wf n A b -> 0 <= eps ->
+  use_positive_only_solver set = true -> force_edge_pixels_to_zeros set = true ->
+  @reconstruction ROps fuel set objs A b eps = Ok s ->
+  let ids := ids_zeros_of set objs in
+  let idx := kept_of n ids in
+  exists x,
+    @reconstruction_positive_only ROps fuel (@submat ROps A idx) (@gather ROps b idx) eps (positive_only_uses_p_initial set) = Ok x /\
+    length s = n /\ length x = length idx /\
+    (forall i, (i < n)%nat -> In i ids -> nth i s 0 = 0) /\
+    (forall k, (k < length idx)%nat -> nth (nth k idx 0%nat) s 0 = nth k x 0) /\
+    (forall k, (k < length idx)%nat ->
+        gradR A b s (nth k idx 0%nat) = gradR (@submat ROps A idx) (@gather ROps b idx) x k).
+Proof.
+  intros Hwf He Hpos Hforce H ids idx. unfold reconstruction in H. rewrite Hpos, Hforce in H.
+  pose proof Hwf as [HA [Hr Hb]]. norm. rewrite HA in H.
+  fold (ids_zeros_of set objs) in H. fold ids in H. fold (kept_of n ids) in H. fold idx in H.
+  destruct (reconstruction_positive_only _ _ _ _ _) as [x|e] eqn:Ex; [|discriminate].
+  inversion H; subst s; clear H. exists x.
+  pose proof (wf_submat n A b idx Hwf) as Hwf'.
+  destruct (positive_only_stationary _ _ _ eps _ fuel x Hwf' He Ex) as [Hlx _].
+  assert (Hlx' : length x = length idx) by (transitivity (length (@gather ROps b idx)); [exact Hlx|unfold gather; apply map_length]).
+  assert (Hnd : NoDup idx) by (apply idx_of_NoDup).
+  assert (Hlt : forall i, In i idx -> (i < n)%nat) by (intros i Hi; apply kept_of_In in Hi; tauto).
+  assert (Hlen : length (@assign ROps (@zeros ROps n) idx x) = n) by (rewrite assign_length; apply zeros_R_length).
+  assert (Hon : forall k, (k < length idx)%nat -> nth (nth k idx 0%nat) (@assign ROps (@zeros ROps n) idx x) 0 = nth k x 0).
+  { intros k Hk. rewrite assign_nth by (rewrite zeros_R_length; apply Hlt; apply nth_In; exact Hk).
+    rewrite find_pos_nth by assumption. reflexivity. }
+  assert (Hoff : forall t, (t < n)%nat -> ~ In t idx -> nth t (@assign ROps (@zeros ROps n) idx x) 0 = 0).
+  { intros t Ht Hn. rewrite assign_nth by (rewrite zeros_R_length; exact Ht).
+    rewrite (find_pos_notin _ _ Hn). apply nth_zeros_any. }
+  repeat split; auto.
+  - intros i Hi Hin. apply Hoff; [exact Hi|]. intros Hk. apply kept_of_In in Hk. tauto.
+  - intros k Hk. unfold gradR. rewrite submat_row, gather_nth by exact Hk. f_equal.
+    apply (reindex _ _ x idx n); auto. eapply row_length; eauto. apply Hlt. apply nth_In. exact Hk.
+Qed.
